@@ -746,6 +746,54 @@ Section Bodies.
       + cbn [body Rnt]. apply Instr_ok. intros ca. apply (IH (NStatements ca) d I). unfold need in *. lia.
   Qed.
 
+  (* ---------------------------------------------------------------- C20: the decrement sites, token coordinates, build_match *)
+  Lemma fine_run {X} (m : PM X) R (s s' : ST) a : fine m R -> wf_pos (pos s) -> m s = Ok (a, s') -> ext s s' /\ R a s s'.
+  Proof. intros F W E. specialize (F s W). rewrite E in F. exact F. Qed.
+
+  Lemma dec_sites_ok :
+    (forall (s s' : ST), wf_pos (pos s) -> Eol A s = Ok (true, s') -> idx (pos s') <> 0 /\ dec_side (pos s') /\ wf_pos (pos s'))
+    /\ (forall (s s' : ST), wf_pos (pos s) -> Symbol A G (bos ".") false s = Ok (true, s') -> idx (pos s') <> 0 /\ dec_side (pos s') /\ wf_pos (pos s')).
+  Proof.
+    split; intros s s' W E.
+    - destruct (fine_run _ _ _ _ _ (fine_Eol_just A) W E) as [Ex J]. specialize (J eq_refl).
+      destruct (just_inc_dec_side _ _ _ J) as [H1 H2]. split; [exact H1|]. split; [exact H2|apply (ext_wf _ _ Ex)].
+    - destruct (fine_run _ _ _ _ _ (fine_Symbol A G (bos ".") false) W E) as [Ex J]. specialize (J eq_refl).
+      assert (J' : just_inc (pos s) (pos s') (fun x => x = 46%N)).
+      { apply (sym_at_just 46%N); [exact J|apply (ext_buf _ _ Ex)|apply (ext_wf _ _ Ex)]. }
+      destruct (just_inc_dec_side _ _ _ J') as [H1 H2]. split; [exact H1|]. split; [exact H2|apply (ext_wf _ _ Ex)].
+  Qed.
+
+  Lemma node_start_facts :
+    (forall (validate : bool) (s s' : ST) text l1 c1,
+       wf_pos (pos s) -> Id A K validate s = Ok (Some (TId text l1 c1), s') ->
+       exists st, wf_pos st /\ buf st = buf (pos s) /\ idx (pos s) <= idx st /\ idx st <= idx (pos s') /\
+                  l1 = (1 + count_nl (firstn (idx st) (buf st)))%Z /\ c1 = (1 + Z.of_nat (since_nl (firstn (idx st) (buf st))))%Z /\
+                  ((deref st =? 96)%N = false -> text = pos_str st (pos s')))
+    /\ (forall k start text (s : ST),
+          start <= len s -> ctor_check k (len s - start) = None ->
+          build_match k start text s =
+          Ok (tt, mkState (pos s) (depth s) (mkPS (firstn start (stack s) ++ [bm_node k text s start]) (fname (user s)) (ticks (user s)))))
+    /\ (forall k text (s : ST) start,
+          pn_file (bm_node k text s start) = fname (user s) /\ pn_children (bm_node k text s start) = skipn start (stack s) /\
+          (l_eline (pn_loc (bm_node k text s start)), l_ecol (pn_loc (bm_node k text s start))) = (line (pos s), col (pos s)) /\
+          match skipn start (stack s) with
+          | c :: _ => (l_line (pn_loc (bm_node k text s start)), l_col (pn_loc (bm_node k text s start))) = (l_line (pn_loc c), l_col (pn_loc c))
+          | [] => (l_line (pn_loc (bm_node k text s start)), l_col (pn_loc (bm_node k text s start))) = (line (pos s), col (pos s))
+          end)
+    /\ (forall f nt d, valid_nt nt -> need nt d <= f -> spec d (P A T K G f nt) (Rnt nt)).
+  Proof.
+    split; [|split; [|split]].
+    - intros validate s s' text l1 c1 W E.
+      destruct (fine_run _ _ _ _ _ (fine_Id_token A K id_sub_keyword validate) W E) as [Ex J].
+      destruct (J text l1 c1 eq_refl) as (st & Wst & Bst & I1 & I2 & L1 & C1 & Tx).
+      exists st. split; [exact Wst|]. split; [exact Bst|]. split; [exact I1|]. split; [exact I2|].
+      destruct Wst as (_ & Wl & Wc). unfold before in Wl, Wc. split; [congruence|]. split; [congruence|exact Tx].
+    - intros k start text s L C. apply build_match_ok; assumption.
+    - intros k text s start. unfold bm_node. cbn [pn_file pn_children pn_loc].
+      split; [reflexivity|]. split; [reflexivity|]. destruct (skipn start (stack s)); cbn [l_eline l_ecol l_line l_col]; split; reflexivity.
+    - exact P_ok.
+  Qed.
+
   (* ---------------------------------------------------------------- the depth limit *)
   (* every grammar function that opens a Depth_Counter, entered at the limit, reports the error at the current position -- on any input *)
   Lemma body_depth_limit call nt (s : ST) :
